@@ -21,7 +21,7 @@ from anyio import CancelScope
 
 from asphalt.core import add_teardown_callback, run_application, start_service_task
 
-from ..core import HORIZON, Sim, SimDeadlock, SimStepLimit, backend_seam
+from ..core import HORIZON, LIVELOCKS, Sim, SimDeadlock, SimStepLimit, _LivelockGuard, backend_seam
 from . import compreg
 from .common import DTS, SimError, SimFatal, SimLookup, describe, is_cancel, leaves, pick, rpause
 
@@ -88,7 +88,9 @@ class H:
                 cls = compreg.klass(c["slot"], c.get("prepare") is not None, c.get("start") is not None)
                 inst.add_component(c["alias"], cls)
         if n.get("fail_init"):
-            e = SimError(f"init {path}")
+            # KeyboardInterrupt / SystemExit raised by a constructor reach run_application's
+            # start-up handler bare (no task group in between): still a start-up failure
+            e: BaseException = {"KI": KeyboardInterrupt, "SE": lambda m: SystemExit(3)}.get(n["fail_init"], SimError)(f"init {path}")
             sim.fault("raise_in_constructor")
             sim.log("fail", path=path, phase="creating")
             raise e
@@ -163,18 +165,46 @@ class H:
             if nested:
                 h.td(nested)
 
-        if spec.get("async"):
+        async def rest() -> None:
+            how = "done"
+            try:
+                await sim.pause(0, spec.get("dur", 0.0))
+            except BaseException:
+                how = "cancelled"
+                raise
+            finally:
+                sim.log("td_done", td=tid, how=how)
+
+        kind = spec.get("kind") or ("async" if spec.get("async") else "sync")
+        if kind == "async":
 
             async def cb() -> None:
                 body_sync()
-                await sim.pause(0, spec.get("dur", 0.0))
-                sim.log("td_done", td=tid)
+                await rest()
+
+        elif kind == "sync_aw":
+            # a plain function handing back a coroutine
+
+            def cb() -> Any:  # type: ignore[misc]
+                body_sync()
+                return rest()
+
+        elif kind == "aw_obj":
+            # a plain function handing back an awaitable that is not a coroutine
+
+            class _Aw:
+                def __await__(self) -> Any:
+                    return rest().__await__()
+
+            def cb() -> Any:  # type: ignore[misc]
+                body_sync()
+                return _Aw()
 
         else:
 
             def cb() -> None:  # type: ignore[misc]
                 body_sync()
-                sim.log("td_done", td=tid)
+                sim.log("td_done", td=tid, how="done")
 
         add_teardown_callback(cb)
         sim.log("td_reg", td=tid)
@@ -263,7 +293,7 @@ def run_once(plan: dict, fire_step: int | None, trace_steps: bool = True, signal
     try:
         with warnings.catch_warnings(record=True) as wl:
             warnings.simplefilter("always")
-            with backend_seam(sim) as (backend, options):
+            with backend_seam(sim) as (backend, options), _LivelockGuard(sim):
                 try:
                     kw: dict[str, Any] = {}
                     if "timeout" in plan:
@@ -280,6 +310,9 @@ def run_once(plan: dict, fire_step: int | None, trace_steps: bool = True, signal
                     sim.log("ra_end", outcome="step_limit", code=None, exc=None)
                 except BaseException as e:  # noqa: BLE001
                     sim.log("ra_end", outcome="raise", code=None, exc=_desc(e))
+                if sim.livelock is not None:
+                    LIVELOCKS.append({"step": sim.livelock, "exc": None})
+                    sim.crashed = f"livelock at step {sim.livelock}"
         sim.user["warnings"] = [str(w.message)[:60] for w in wl if "exit code" in str(w.message) or "run() must return" in str(w.message)]
     finally:
         lg.removeHandler(tap)
@@ -400,8 +433,15 @@ def oracle(sim: Sim, plan: dict) -> list[dict]:
         v("C15.teardown", f"repeated@{ending}", f"teardown callbacks {dup} ran more than once (ending: {ending})")
     if not ok_order and not missing and not dup:
         v("C15.teardown", f"order@{ending}", f"teardown callbacks ran {ran}, registered {regs} (must be reverse order) (ending: {ending})")
-    unfinished = [r[5]["td"] for r in tr if r[4] == "td_run"]
-    done = [r[5]["td"] for r in tr if r[4] == "td_done"]
+    done = [r[5]["td"] for r in tr if r[4] == "td_done" and r[0] < end[0]]
+    unfinished = [t for t in ran if t not in done]
+    if unfinished and not late:
+        v(
+            "C15.teardown",
+            f"incomplete@{ending}",
+            f"teardown callbacks {unfinished} were called but what they returned was never awaited to the end "
+            f"before run_application ended (ending: {ending})",
+        )
     svcs = [r[5]["svc"] for r in tr if r[4] == "svc_start"]
     ended = [r[5]["svc"] for r in tr if r[4] == "svc_end" and r[0] < end[0]]
     if sorted(svcs) != sorted(ended):
@@ -529,6 +569,8 @@ def gen(rng: random.Random, tier: str, prop: str) -> dict:
             elif r < 0.8:
                 ntd[0] += 1
                 spec: dict[str, Any] = {"id": f"cb{ntd[0]}", "async": rng.random() < 0.5, "dur": rng.choice(DTS[:5])}
+                if rng.random() < 0.25:
+                    spec["kind"] = rng.choice(("sync_aw", "aw_obj"))
                 if rng.random() < 0.2:
                     ntd[0] += 1
                     spec["nested"] = {"id": f"cb{ntd[0]}", "async": rng.random() < 0.5, "dur": rng.choice(DTS[:4])}
@@ -583,7 +625,7 @@ def gen(rng: random.Random, tier: str, prop: str) -> dict:
         phases = ["creating"] + [ph for ph in ("prepare", "start") if n.get(ph) is not None]
         ph = rng.choice(phases)
         if ph == "creating":
-            n["fail_init"] = "SimError"
+            n["fail_init"] = pick(rng, {"SimError": 4, "KI": 1, "SE": 1})
         else:
             pos = rng.randint(0, len(n[ph]))
             n[ph].insert(pos, ["fail", rng.choice(("SimError", "SimLookup"))])
